@@ -7,7 +7,7 @@
    C15_align_operand; what stays outside is stated in the comment of C15_no_internal_exception. *)
 From Coq Require Import ZArith List String.
 From BB Require Import Base.PyBase Gen.Encoders Model.Items Model.Encode Model.Passes
-  Proofs.Layout Proofs.Pipeline Proofs.Errors Proofs.Examples Model.Parser Proofs.ParseErrors Proofs.EncSig Proofs.EncTotal Proofs.NoRaw Proofs.ParseOk Gen.ParseTable Proofs.ParseTable Proofs.ReaderErrors.
+  Proofs.Layout Proofs.Pipeline Proofs.Errors Proofs.Examples Model.Parser Proofs.ParseErrors Proofs.EncSig Proofs.EncTotal Proofs.NoRaw Proofs.ParseOk Gen.ParseTable Proofs.ParseTable Proofs.ReaderErrors Proofs.Program Proofs.TextErrors.
 Import ListNotations.
 Open Scope Z_scope.
 
@@ -184,6 +184,38 @@ Theorem C15_handlers_from_source :
   Gen.Criteria.select_converts_value_error = true.
 Proof. repeat split; reflexivity. Qed.
 Print Assumptions C15_handlers_from_source.
+
+(* BOTH HALVES AT THE LEVEL OF THE TEXT of a file: the model of asm.assemble on the lines of one file (Proofs/Program.v
+   assemble_text: lex and parse every line, drop blank lines, run the 16 passes), for every file, any initial constants / labels,
+   both modes.  The only condition, on each line separately and in terms of the lexer / parser models only (TextErrors.line_cond):
+   the parser does not hit one of its operand-COUNT faults on it (tuple unpacking: `mv t0`, `align`, `error` -- not a fault class of the
+   property), a pseudo-instruction has the operand count of its template row, a shorthand directive is spelled in lower case.
+   Then: the run NEVER ends with a raw exception, and an AssemblerError ALWAYS names one of the lines of the file. *)
+Theorem C15_text_no_internal_exception :
+  forall (ls : list (line * string)) consts labels compress x,
+    Forall TextErrors.line_cond ls -> Program.assemble_text ls consts labels compress <> Program.TFail (PRaw x).
+Proof.
+  intros ls c l cmp x H. apply TextErrors.text_no_raw. exact EncTotal.encode_total.
+  eapply Forall_impl; [|exact H]. intros lt. apply TextErrors.line_cond_fine.
+Qed.
+Print Assumptions C15_text_no_internal_exception.
+Theorem C15_text_located :
+  forall (ls : list (line * string)) consts labels compress l,
+    Forall TextErrors.line_cond ls -> Program.assemble_text ls consts labels compress = Program.TFail (PAsm l) -> In l (map fst ls).
+Proof.
+  intros ls c lb cmp l H. apply TextErrors.text_located.
+  eapply Forall_impl; [|exact H]. intros lt. apply TextErrors.line_cond_fine.
+Qed.
+Print Assumptions C15_text_located.
+Example C15_text_example :     (* a three-line file with an undefined label: hypotheses hold, the error names line 3 *)
+  let ls := [(exL 1, "start:"); (exL 2, "  addi x8, x8, 1  # count"); (exL 3, "  j nowhere")]%string in
+  Forall TextErrors.line_cond ls /\ Program.assemble_text ls [] [] true = Program.TFail (PAsm (exL 3)).
+Proof.
+  cbv zeta. split.
+  { apply Forall_cons; [|apply Forall_cons; [|apply Forall_cons; [|apply Forall_nil]]]; (unfold TextErrors.line_cond; vm_compute; split; intros;
+      first [discriminate | match goal with Hq : _ = _ |- _ => inversion Hq; subst; reflexivity end]). }
+  vm_compute. reflexivity.
+Qed.
 
 (* the class -> mnemonic-table map of the well-formedness above (Proofs/EncSig.v class_sig) is the dispatch of asm.parse_item as
    REGENERATED from the source (Gen/ParseTable.v): the parser builds each class from exactly that table and passes the operand
